@@ -18,7 +18,6 @@ import (
 	"verifharness/kit"
 )
 
-const grid = time.Second
 
 var t0 = time.Date(2030, 1, 1, 0, 0, 0, 0, time.UTC)
 
@@ -92,6 +91,10 @@ func runCase(c *kit.Case) {
 
 	clock := clockwork.NewFakeClockAt(t0)
 	mode := []string{"sustained", "sustained", "burst", "concurrent"}[rng.Intn(4)]
+	// time scale of the case: deadlines seconds apart (production-like), minutes apart, or hours apart
+	// (far deadlines with long quiet stretches in between)
+	grid := []time.Duration{time.Second, time.Second, 90 * time.Second, 50 * time.Minute, 7 * time.Hour}[rng.Intn(5)]
+	r.Count("cases_time_scale/"+grid.String(), 1)
 
 	// Pool of duties and their deadlines (steps on the grid; half steps allowed so that "now" can
 	// fall between deadlines and exactly on them).
